@@ -363,11 +363,17 @@ func ldRejects(v any) (rejects bool) {
 }
 
 func runACV(args ...string) (stdout, stderr string, exit int, err error) {
+	return runACVIn("", args...)
+}
+
+// runACVIn runs the CLI with dir as its working directory ("" = inherit)
+func runACVIn(dir string, args ...string) (stdout, stderr string, exit int, err error) {
 	bin := os.Getenv("ACV_BIN")
 	if bin == "" {
 		return "", "", 0, fmt.Errorf("ACV_BIN not set")
 	}
 	cmd := exec.Command(bin, args...)
+	cmd.Dir = dir
 	var so, se bytes.Buffer
 	cmd.Stdout, cmd.Stderr = &so, &se
 	e := cmd.Run()
